@@ -25,7 +25,7 @@ import (
 	. "verifharness/kit"
 )
 
-func main() { Main("C13", checkC13, iogen.Gen, stateGen) }
+func main() { Main("C13", checkC13, stateGen, iogen.Gen) }
 
 type tri = [3][3]float64
 
